@@ -43,6 +43,27 @@ fn tail_profile() -> Profile {
     }
 }
 
+fn multi_profile() -> Profile {
+    Profile {
+        conns: (2, 6),
+        steps: (0, 8),
+        handshake_failures: 30,
+        keep_session_pct: 92,
+        w_pub: [0, 6, 6],
+        w_sub: 3,
+        w_unsub: 3,
+        w_ack: 4,
+        w_deliver: 0,
+        w_redeliver: 0,
+        w_pubrel: 0,
+        payload_max: 6,
+        topic_max: 4,
+        pub_props: false,
+        session_expiry: vec![3600],
+        ..Profile::default()
+    }
+}
+
 pub fn strategy() -> BoxedStrategy<Case> {
     let p = tail_profile();
     (
@@ -176,6 +197,17 @@ pub fn run(ctx: &Ctx) -> i32 {
         }
         Eval { nontrivial: stats.wraps_with_inflight > 0, classes, violations, watchdog: trace.watchdog }
     });
+    // identifiers across connections: rejected / garbled / cancelled handshakes between resumed
+    // connections with operations in flight (the broker still holds their identifiers)
+    let multi = run_prop(ctx, "case", 16, ctx.tier.pick(60_000, 1_500_000), || cgen::case(&multi_profile()), |case: &Case| {
+        let (violations, stats, trace) = eval_case(case);
+        let mut classes = Vec::new();
+        if stats.resumed_with_inflight > 0 && stats.failed_handshakes > 0 {
+            classes.push("failed-handshake-and-resumed-with-inflight");
+        }
+        Eval { nontrivial: stats.resumed_with_inflight > 0, classes, violations, watchdog: trace.watchdog }
+    });
+    agg.merge(multi);
     let pre_failed = pre.failure.clone();
     agg.merge(pre);
     if pre_failed.is_some() {
@@ -186,7 +218,7 @@ pub fn run(ctx: &Ctx) -> i32 {
         agg,
         Report {
             level: "exploration",
-            rule: "each case: a Receive Maximum of 1-7 filled with long-lived QoS 1/2 publishes (some held between PUBREC and PUBCOMP) plus 0-4 SUBSCRIBE/UNSUBSCRIBE in flight, then a burn of 65535*w + offset identifier allocations (locally refused publishes; w in {1,2}, offset chosen so the counter lands on/around the identifiers still in use), optionally a resumed reconnect or a preceding fresh session, then a generated tail of new operations and acks; oracle = every identifier-bearing outbound packet has id != 0 and id not in the model's in-flight set of the session (QoS 2 until PUBCOMP). Non-trivial = a new identifier is smaller than its predecessor (counter wrapped) while at least one operation is still in flight; distinct = distinct case value.".into(),
+            rule: "each case: a Receive Maximum of 1-7 filled with long-lived QoS 1/2 publishes (some held between PUBREC and PUBCOMP) plus 0-4 SUBSCRIBE/UNSUBSCRIBE in flight, then a burn of 65535*w + offset identifier allocations (locally refused publishes; w in {1,2}, offset chosen so the counter lands on/around the identifiers still in use), optionally a resumed reconnect or a preceding fresh session, then a generated tail of new operations and acks; oracle = every identifier-bearing outbound packet has id != 0 and id not in the model's in-flight set of the session (QoS 2 until PUBCOMP). Non-trivial = a new identifier is smaller than its predecessor (counter wrapped) while at least one operation is still in flight; distinct = distinct case value. Second generator: generic histories of 2-6 connections with 30 % rejected / garbled / cut / cancelled handshakes and resumed sessions (non-trivial = a resumed connection with operations in flight), same oracle.".into(),
             assumptions: vec![
                 "identifier allocations are observed only through the wire; the burn relies on refused publishes consuming identifiers (if they do not, the non-trivial count drops to zero instead of raising an alarm)".into(),
                 "conformant scripted broker".into(),
